@@ -14,7 +14,7 @@ SHARD_TIMEOUT = {'quick': 300, 'thorough': 1500}
 CFG = {
     'monitors': ['conflict', 'commit'],
     'deciding_counters': ['conflict.judged'],
-    'n': {'quick': 150, 'thorough': 1000},
+    'n': {'quick': 900, 'thorough': 1000},
     'ops': {'quick': 30, 'thorough': 60},
     'invalid_rate': 0.2,
     'weights': {'create': 16, 'set': 16, 'setmany': 8, 'add': 3, 'remove': 2, 'assign': 1, 'clear': 1, 'delete': 6, 'flush': 8, 'commit': 5, 'read': 2, 'coll': 2, 'bykey': 6, 'bypk': 4},
